@@ -1,6 +1,7 @@
 (* C11 — no descriptor is leaked, closed twice, or closed without being owned (model: Unix.v). *)
 From Coq Require Import List Arith ZArith Bool Permutation.
 From IPC Require Import K KProofs Prog Ideal Unix UnixProofs.
+From IPC Require K Prog Ideal Api ApiProofs ApiInv.
 Import ListNotations.
 
 (* after ANY operation sequence (failing sends, moved receivers, clones, drops in any order): the open
@@ -34,3 +35,24 @@ Example C11_ex :
   let u := fst (u_run u_init [ONew; ONew; OClone 0; OSend 0 1 [ARx 3; ATx 2]; ODrop 0; ODrop 4; ODrop 1; ODrop 2]) in
   fdt u = [] /\ utrace u = [CSocketpair 3 4; CSocketpair 5 6; CSendmsg 3 2 true; CClose 6; CClose 3; CClose 4; CClose 5].
 Proof. vm_compute. split; reflexivity. Qed.
+
+(* ---- the whole public API at reference level (model: Api.v; proofs: ApiInv.v): channels, regions, receiver sets, one-shot
+   servers, undecodable messages, failing sends ---- *)
+Module ApiLevel.
+Import K Prog Ideal Api ApiProofs ApiInv.
+Local Open Scope nat_scope.
+
+(* the references the process holds are exactly those backing a live handle (sender, receiver, region, member of a set,
+   server) - nothing parked anywhere else *)
+Theorem C11_api_held_exact : forall ops,
+  let s := fst (a_run a_init ops) in Permutation (held (ak s)) (ahandle_refs (ah s)).
+Proof. exact api_held_exact. Qed.
+Print Assumptions C11_api_held_exact.
+
+(* once every handle the program obtained is gone the process holds no reference at all *)
+Theorem C11_api_quiescent : forall ops,
+  let s := fst (a_run a_init ops) in
+  (forall h o, In (h, o) (ah s) -> aobj_refs o = []) -> held (ak s) = [].
+Proof. exact api_quiescent. Qed.
+Print Assumptions C11_api_quiescent.
+End ApiLevel.
